@@ -340,9 +340,15 @@ func (c *context) RecvMsg() (*protocol.Message, error) {
 		c.cond.Wait()
 	}
 
-	m := c.repMsg
-	c.reqID = 0
-	c.repMsg = nil
+	var m *protocol.Message
+	if id == c.reqID {
+		// Still our request: consume the reply.  Otherwise the request
+		// was canceled (c.reqID == 0) or replaced by a newer one, whose
+		// state we must leave alone.
+		m = c.repMsg
+		c.reqID = 0
+		c.repMsg = nil
+	}
 	c.receiveWait = false
 	c.cond.Broadcast()
 
